@@ -197,7 +197,10 @@ def find_dispatch_loops(scope):
         for test, b in raw_arms:
             k = eq_key(test, opvar)
             if k is None:
-                raise ModelError(f'dispatch chain line {test.lineno}: arm test is not `{opvar} == <const>`: {norm(test)}')
+                from .core import DefiniteShapeError, qualname_of
+                raise DefiniteShapeError('exhaust', '', qualname_of(test) if hasattr(test, '_parent') else '?', norm(test),
+                                         f'dispatch chain: the arm test `{norm(test)}` is not `{opvar} == <one opcode>`: an arm that matches any other condition '
+                                         f'is taken for opcodes it does not implement (and shadows the arms after it)', getattr(test, 'lineno', 0))
             cname = attr_chain(k)
             if cname is None:
                 raise ModelError(f'dispatch chain line {test.lineno}: key is not a named constant: {norm(k)}')
